@@ -50,8 +50,7 @@ def _worker(modname, tier, vseed, phase_idx, phase, lo, hi):
         faulthandler.dump_traceback_later(WATCHDOG_WALL_S, exit=True)
         signal.setitimer(signal.ITIMER_PROF, limit)
         try:
-            with core.quiet_stdout():
-                check.run_one(sim, dict(params, _idx=idx))
+            core.run_guarded(check, sim, dict(params, _idx=idx))
         except Violation as v:
             signal.setitimer(signal.ITIMER_PROF, 0)
             res["violations"].append({
